@@ -412,4 +412,23 @@ theorem first_frame_range {st : St} {d : Datum} {ref : ExtRef} {st' : St} {i0 i1
     simp [hc] at h2
     omega
 
+/-- a converted frame-based range is NON-EMPTY unless the datum repeats the frame number the counter
+    already stands at (`frame + 1 = index`): see Counterexamples/C35.lean for that case -/
+theorem frame_range_nonempty {st : St} {d : Datum} {ref : ExtRef} {st' : St} {i0 i1 : Int} {name : String} {f : Int}
+    (h : convert st d ref = .ok (st', i0, i1, name)) (hf : d.frame = some f) (h0 : 0 ≤ f)
+    (hne : ((st.nextFrame.lookup (name, ref.key)).getD frameCounterInit).2 ≠ f + 1) : i0 < i1 := by
+  unfold convert at h
+  simp only [hf] at h
+  cases hl : st.descName.lookup ref.desc with
+  | none => simp [hl] at h
+  | some nm =>
+    simp only [hl, Except.ok.injEq, Prod.mk.injEq] at h
+    obtain ⟨_, h1, h2, h3⟩ := h
+    subst h3
+    subst h1
+    subst h2
+    simp only [frameCarryCond, frameCarryVal, frameNextIndex]
+    generalize ((List.lookup (nm, ref.key) st.nextFrame).getD frameCounterInit) = c at hne
+    by_cases hc : c.1 + (f + 1) < c.1 + c.2 <;> simp [hc] <;> omega
+
 end BlueskyVerif.NormFlow
